@@ -291,7 +291,7 @@ func (db *dispatchBuilder) Returns2(tp px.Type) {
 }
 
 func (db *dispatchBuilder) Function(df px.DispatchFunction) {
-	if _, ok := db.blockType.(*types.CallableType); ok {
+	if db.blockType != nil {
 		panic(`Dispatch requires a block. Use FunctionWithBlock`)
 	}
 	db.function = df
